@@ -119,6 +119,13 @@ CHECKS = {
         "note": "Trusted: TLC, result tagging. Known findings: greedy repetition is possessive (language shrinks when the follower needs the same token); greedy lost when the same base "
                 "symbol is also used non-greedy (shared helper rule). Imported grammars with sugar are covered by C20's corpus only incidentally.",
     },
+    "C15": {
+        "engine": "tlc-replay", "design_ref": "DESIGN.md 3.8, 4.2, 7 C15",
+        "technique": "Lifecycle.tla machine: TLC enumerates all call histories up to the bound and simulates longer random ones; each replayed on real Grammar/parser objects; LifecycleTrace.tla validates the projected grammar state after every step and evaluates HistoryIndependent (reply = fresh parser's reply), TLC",
+        "level": "For every history of the explored space (builds of several parser kinds on one Grammar object, failing builds, parses that succeed, fail, recover, raise inside an action or a recognizer) every "
+                 "parse reply equals the reply of a freshly built parser, every later build succeeds, and the grammar's augmented production is `main` after every step.",
+        "note": "Trusted: TLC, the reply/grammar projection (harness/stage_life). Bounded: one grammar in two variants, histories <= 3 exhaustively (thorough 4), simulated depth 6-8.",
+    },
     "C18": {
         "engine": "tlc-trace", "design_ref": "DESIGN.md 3.4, 3.5 (FilterCall), 7 C18",
         "technique": "FilterCheck.tla: recorded filter call logs vs marks and returned trees (FilterInitOnce, FilterOnlyMarked, AcceptedTaken, RejectedNotTaken, AcceptAll = NoFilter, RejectP = NoFilter minus p); Prec.tla for precedence-encoding filters, TLC",
